@@ -163,7 +163,7 @@ pub fn verif_chars(s: &str) -> (r: Vec<char>)
                     },
                 }
             }
-//@after ~else if let Some\(ap\) = after_ast \{
+//@after ~if let Some\(ap\) = after_ast \{
             proof {
                 lemma_g_unfold(p, t, pi as int, ti as int);
                 assert(!g(p, t, pi as int, ti as int));
